@@ -20,6 +20,23 @@ package main
 //                expressions) becomes a PARAMETER of the Lean definition, named after its source
 //                text; a leaf of type error becomes a Bool ("is non-nil"), a leaf of any other
 //                non-numeric type an Int code that is only compared for equality.
+// Extensions (v2):
+//   * `&` `|` `^` `&^` (and their assignment forms, and unary ^ at unsigned types) on non-negative operands:
+//     band / bor / bxor / bandnot of the generated prelude (Nat bit operations);
+//   * several results: the Lean result is the tuple of the translated results (an error result is the outcome
+//     label, a result of another type an opaque Int code, 0 for nil);
+//   * `a, b := f(..)`, `v, ok := m[k]`, `y, ok := z.(T)`: every left side is a leaf of its own (`f(..)#i`);
+//   * writes to non-local locations (fields, elements, pointees; also ++/-- and op=): the location is threaded
+//     like a local, its initial value is a parameter, and its FINAL value is a further component of the result
+//     at every exit, in order of first textual occurrence;
+//   * effect-only call statements (also go / defer of a named function): the callee's source text is appended
+//     to a list of effects, the last component of the result; an effect call made ON an object (x.Add(..))
+//     makes later leaves that mention x different parameters (suffix @x<n>): the object may have changed;
+//   * a comparison of a string with anything is a Bool leaf (strings are not modelled).
+// Limits that remain: no loops; calls are opaque leaves (their arguments are not tracked: use Sink to
+// observe what is passed); two leaves with the same source text (and the same effect epoch) are the same
+// value — a function that changes an object through ASSIGNED calls between two reads of it is outside
+// the subset even if it translates.
 // Semantics: Go integers are translated to unbounded Int; results of + - * << and conversions at an
 // unsigned type are reduced mod 2^w, at int8/int16/int32 wrapped two's-complement; int/int64 are
 // NOT wrapped (64-bit signed overflow is outside the translation — recorded in the trusted base).
@@ -100,6 +117,11 @@ type gfTr struct {
 	locals  map[string]gfKind // Go local name -> kind
 	used    map[string]bool   // lean names in use
 	errOrigin map[string]string // local error variable -> name of the leaf it was last assigned from
+	fieldKeys []string          // written non-local locations (source text), in order of first occurrence
+	fieldTy   map[string]string // their Lean types
+	hasEff    bool              // the body has effect-only call statements
+	epoch     map[string]int    // identifier -> number of effect-only calls made on it so far (leaves mentioning it are re-read)
+	resKinds  []string          // kinds of the declared results ("int" "bool" "err" "opaque")
 	resKind string            // "int" "bool" "err" "sink" "unit"
 	option  bool              // result wrapped in Option (panic or sink)
 }
@@ -232,9 +254,32 @@ func (t *gfTr) kindOfType(ty types.Type) gfKind {
 	return kOpaque
 }
 
+// epochKey: a leaf that mentions an object which an effect-only call was made on since (x.Add(..), x.Reset())
+// is a different read: its key (and parameter name) carries the number of such calls.
+func (t *gfTr) epochKey(src string) string {
+	if len(t.epoch) == 0 {
+		return src
+	}
+	var ids []string
+	for id := range t.epoch {
+		ids = append(ids, id)
+	}
+	sort.Strings(ids)
+	for _, id := range ids {
+		if regexp.MustCompile(`(^|[^A-Za-z0-9_.])` + regexp.QuoteMeta(id) + `([^A-Za-z0-9_]|$)`).MatchString(src) {
+			src += fmt.Sprintf(" @%s%d", id, t.epoch[id])
+		}
+	}
+	return src
+}
+
 func (t *gfTr) leaf(e ast.Expr) (string, gfKind) {
 	src := t.text(e)
 	k := t.kindOfType(t.typeOf(e))
+	if _, isField := t.locals["field:"+src]; isField {
+		return t.leaves["local:field:"+src], k
+	}
+	src = t.epochKey(src)
 	if n, ok := t.leaves[src]; ok {
 		return n, k
 	}
@@ -318,6 +363,14 @@ func (t *gfTr) expr(e ast.Expr) (string, gfKind) {
 		case token.NOT:
 			s, k := t.expr(x.X)
 			return "(¬ " + t.toProp(s, k) + ")", kProp
+		case token.XOR:
+			if ok, uns, w := gf_intInfo(t.typeOf(e)); ok && uns && w > 0 {
+				s, k := t.expr(x.X)
+				if k == kInt {
+					return "(" + gf_pow2(w) + " - 1 - " + s + ")", kInt
+				}
+			}
+			t.fail(e, "unsupported bitwise complement")
 		}
 		return t.leaf(e)
 	case *ast.BinaryExpr:
@@ -360,6 +413,18 @@ func (t *gfTr) binary(x *ast.BinaryExpr) (string, gfKind) {
 			}
 			return "(" + s + " = false)", kProp
 		}
+		if isStr := func(e ast.Expr) bool {
+			b, ok := t.typeOf(e).Underlying().(*types.Basic)
+			return ok && b.Info()&types.IsString != 0
+		}; t.typeOf(x.X) != nil && isStr(x.X) {
+			// strings are not modelled: the comparison itself is a Bool leaf (named in its == form)
+			eq := &ast.BinaryExpr{X: x.X, Op: token.EQL, Y: x.Y}
+			n, _ := t.leafAs(eq, "Bool")
+			if neg {
+				return "(" + n + " = false)", kProp
+			}
+			return "(" + n + " = true)", kProp
+		}
 		a, ka := t.expr(x.X)
 		b, kb := t.expr(x.Y)
 		if ka == kProp || ka == kBool {
@@ -377,6 +442,14 @@ func (t *gfTr) binary(x *ast.BinaryExpr) (string, gfKind) {
 		}
 		op := map[token.Token]string{token.LSS: " < ", token.LEQ: " ≤ ", token.GTR: " > ", token.GEQ: " ≥ "}[x.Op]
 		return "(" + a + op + b + ")", kProp
+	case token.AND, token.OR, token.XOR, token.AND_NOT:
+		a, ka := t.expr(x.X)
+		b, kb := t.expr(x.Y)
+		if ka != kInt || kb != kInt {
+			t.fail(x, "bit operation on non-integers: %s", t.text(x))
+		}
+		fn := map[token.Token]string{token.AND: "band", token.OR: "bor", token.XOR: "bxor", token.AND_NOT: "bandnot"}[x.Op]
+		return "(" + fn + " " + a + " " + b + ")", kInt
 	case token.ADD, token.SUB, token.MUL, token.QUO, token.REM, token.SHL, token.SHR:
 		a, ka := t.expr(x.X)
 		b, kb := t.expr(x.Y)
@@ -415,7 +488,7 @@ func (t *gfTr) binary(x *ast.BinaryExpr) (string, gfKind) {
 }
 
 func (t *gfTr) leafAs(e ast.Expr, ty string) (string, gfKind) {
-	src := t.text(e)
+	src := t.epochKey(t.text(e))
 	if n, ok := t.leaves[src]; ok {
 		return n, kBool
 	}
@@ -511,6 +584,76 @@ func (t *gfTr) wrapRes(s string) string {
 	return s
 }
 
+// finish assembles the value returned at an exit: the declared results, then the final value of every written
+// non-local location (in order of first occurrence), then the list of effect-only calls reached.
+func (t *gfTr) finish(vals []string) string {
+	comps := append([]string{}, vals...)
+	for _, f := range t.fieldKeys {
+		comps = append(comps, t.leaves["local:field:"+f])
+	}
+	if t.hasEff {
+		comps = append(comps, t.leaves["local:effects:"])
+	}
+	var s string
+	switch len(comps) {
+	case 0:
+		s = "()"
+	case 1:
+		s = comps[0]
+	default:
+		s = "(" + strings.Join(comps, ", ") + ")"
+	}
+	if t.option {
+		return "some (" + s + ")"
+	}
+	return s
+}
+
+// retValue translates one returned expression according to the kind of the declared result.
+func (t *gfTr) retValue(x ast.Node, r ast.Expr, kind string) string {
+	switch kind {
+	case "int":
+		v, k := t.expr(r)
+		if k != kInt {
+			t.fail(x, "integer result expected")
+		}
+		return v
+	case "bool":
+		v, k := t.expr(r)
+		return t.toBool(v, k)
+	case "opaque":
+		if gf_isNil(r) {
+			return "0"
+		}
+		v, _ := t.expr(r)
+		return v
+	case "err":
+		if gf_isNil(r) {
+			return `"ok"`
+		}
+		if m := gf_errName.FindString(t.text(r)); m != "" {
+			return `"` + m + `"`
+		}
+		if id, ok := r.(*ast.Ident); ok {
+			if k, isLocal := t.locals[id.Name]; isLocal && k == kErr {
+				if o := t.errOrigin[id.Name]; o != "" {
+					return `"` + o + `"`
+				}
+				return `"err"`
+			}
+		}
+		if gf_isErrT(t.typeOf(r)) {
+			if _, isCall := r.(*ast.CallExpr); isCall && !strings.HasPrefix(t.text(r), "fmt.Errorf") && !strings.HasPrefix(t.text(r), "errors.New") {
+				n, _ := t.leaf(r)
+				return "(if " + n + " = true then \"" + n + "\" else \"ok\")"
+			}
+		}
+		return `"err"`
+	}
+	t.fail(x, "unsupported result kind %s", kind)
+	return ""
+}
+
 var gf_errName = regexp.MustCompile(`\bErr[A-Z]\w*`)
 
 func (t *gfTr) stmts(ss []ast.Stmt) string {
@@ -519,7 +662,7 @@ func (t *gfTr) stmts(ss []ast.Stmt) string {
 		case "sink":
 			return "none"
 		case "unit":
-			return t.wrapRes("()")
+			return t.finish(nil)
 		}
 		panic(gfErr{"control reaches the end of a function with a result"})
 	}
@@ -541,45 +684,16 @@ func (t *gfTr) stmts(ss []ast.Stmt) string {
 		case "sink":
 			return "none"
 		case "unit":
-			return t.wrapRes("()")
+			return t.finish(nil)
 		}
-		if len(x.Results) != 1 {
-			t.fail(x, "return with %d results", len(x.Results))
+		if len(x.Results) != len(t.resKinds) {
+			t.fail(x, "return with %d results (declared %d)", len(x.Results), len(t.resKinds))
 		}
-		r := x.Results[0]
-		switch t.resKind {
-		case "int":
-			v, k := t.expr(r)
-			if k != kInt {
-				t.fail(x, "integer result expected")
-			}
-			return t.wrapRes(v)
-		case "bool":
-			v, k := t.expr(r)
-			return t.wrapRes(t.toBool(v, k))
-		case "err":
-			if gf_isNil(r) {
-				return t.wrapRes(`"ok"`)
-			}
-			if m := gf_errName.FindString(t.text(r)); m != "" {
-				return t.wrapRes(`"` + m + `"`)
-			}
-			if id, ok := r.(*ast.Ident); ok {
-				if k, isLocal := t.locals[id.Name]; isLocal && k == kErr {
-					if o := t.errOrigin[id.Name]; o != "" {
-						return t.wrapRes(`"` + o + `"`)
-					}
-					return t.wrapRes(`"err"`)
-				}
-			}
-			if gf_isErrT(t.typeOf(r)) {
-				if _, isCall := r.(*ast.CallExpr); isCall && !strings.HasPrefix(t.text(r), "fmt.Errorf") && !strings.HasPrefix(t.text(r), "errors.New") {
-					n, _ := t.leaf(r)
-					return "(if " + n + " = true then " + t.wrapRes(`"`+n+`"`) + " else " + t.wrapRes(`"ok"`) + ")"
-				}
-			}
-			return t.wrapRes(`"err"`)
+		var vals []string
+		for i, r := range x.Results {
+			vals = append(vals, t.retValue(x, r, t.resKinds[i]))
 		}
+		return t.finish(vals)
 	case *ast.DeclStmt:
 		gd, ok := x.Decl.(*ast.GenDecl)
 		if !ok || gd.Tok != token.VAR {
@@ -606,56 +720,15 @@ func (t *gfTr) stmts(ss []ast.Stmt) string {
 		}
 		return out + t.stmts(rest)
 	case *ast.AssignStmt:
-		if len(x.Lhs) != 1 || len(x.Rhs) != 1 {
-			t.fail(x, "multi-assignment: %s", t.text(x))
-		}
-		id, ok := x.Lhs[0].(*ast.Ident)
-		if !ok {
-			t.fail(x, "assignment to a non-local: %s", t.text(x))
-		}
-		var v string
-		var k gfKind
-		switch x.Tok {
-		case token.DEFINE, token.ASSIGN:
-			v, k = t.valueFor(x.Rhs[0])
-		default:
-			op := map[token.Token]token.Token{token.ADD_ASSIGN: token.ADD, token.SUB_ASSIGN: token.SUB, token.MUL_ASSIGN: token.MUL, token.QUO_ASSIGN: token.QUO, token.REM_ASSIGN: token.REM, token.SHL_ASSIGN: token.SHL, token.SHR_ASSIGN: token.SHR}[x.Tok]
-			if op == 0 {
-				t.fail(x, "unsupported assignment operator")
-			}
-			be := &ast.BinaryExpr{X: id, Op: op, Y: x.Rhs[0]}
-			// types for the synthetic node: result has the type of the variable
-			t.p.TypesInfo.Types[be] = types.TypeAndValue{Type: t.typeOf(id)}
-			v, k = t.binary(be)
-		}
-		if id.Name == "_" {
-			return t.stmts(rest)
-		}
-		if x.Tok == token.DEFINE {
-			if _, exists := t.locals[id.Name]; exists {
-				t.fail(x, "re-declaration of %s in an inner scope is not supported", id.Name)
-			}
-		} else if _, exists := t.locals[id.Name]; !exists {
-			t.fail(x, "assignment to non-local %s", id.Name)
-		}
-		if k == kErr {
-			t.errOrigin[id.Name] = v
-		}
-		n := t.bindLocal(id.Name, k)
-		return "let " + n + " := " + v + "\n" + t.stmts(rest)
+		return t.assign(x, rest)
 	case *ast.IncDecStmt:
-		id, ok := x.X.(*ast.Ident)
-		if !ok {
-			t.fail(x, "++/-- on a non-local")
-		}
-		cur, _ := t.expr(id)
+		cur, _ := t.expr(x.X)
 		op := " + 1"
 		if x.Tok == token.DEC {
 			op = " - 1"
 		}
-		v := gf_wrapAt(t.typeOf(id), "("+cur+op+")")
-		n := t.bindLocal(id.Name, kInt)
-		return "let " + n + " := " + v + "\n" + t.stmts(rest)
+		v := gf_wrapAt(t.typeOf(x.X), "("+cur+op+")")
+		return t.bindTarget(x, x.X, v, kInt) + t.stmts(rest)
 	case *ast.ExprStmt:
 		if c, ok := x.X.(*ast.CallExpr); ok {
 			ft := t.text(c.Fun)
@@ -668,13 +741,22 @@ func (t *gfTr) stmts(ss []ast.Stmt) string {
 			if gfIgnoreCall.MatchString(ft + "(") {
 				return t.stmts(rest)
 			}
+			return t.effect(ft) + t.stmts(rest)
 		}
 		t.fail(x, "unsupported statement: %s", t.text(x))
 	case *ast.DeferStmt:
 		if gfIgnoreCall.MatchString(t.text(x.Call.Fun) + "(") {
 			return t.stmts(rest)
 		}
-		t.fail(x, "unsupported defer")
+		if _, isLit := x.Call.Fun.(*ast.FuncLit); isLit {
+			t.fail(x, "deferred function literal")
+		}
+		return t.effect("defer "+t.text(x.Call.Fun)) + t.stmts(rest)
+	case *ast.GoStmt:
+		if _, isLit := x.Call.Fun.(*ast.FuncLit); isLit {
+			t.fail(x, "go with a function literal")
+		}
+		return t.effect("go "+t.text(x.Call.Fun)) + t.stmts(rest)
 	case *ast.IfStmt:
 		pre := ""
 		saved := t.snapshot()
@@ -757,6 +839,144 @@ func (t *gfTr) stmts(ss []ast.Stmt) string {
 	return ""
 }
 
+// effect records an effect-only call in the list of effects (the function's last result component).
+func (t *gfTr) effect(callee string) string {
+	if !t.hasEff {
+		panic(gfErr{"effect statement not found by the pre-scan: " + callee})
+	}
+	if i := strings.IndexAny(callee, ".("); i > 0 && !strings.HasPrefix(callee, "go ") && !strings.HasPrefix(callee, "defer ") {
+		t.epoch[callee[:i]]++
+	}
+	cur := t.leaves["local:effects:"]
+	n := t.fresh("effects")
+	t.leaves["local:effects:"] = n
+	return "let " + n + " := " + cur + " ++ [\"" + strings.ReplaceAll(callee, "\"", "'") + "\"]\n"
+}
+
+// bindTarget binds a new value to an assignment target: a local variable, or a written non-local location
+// (field, element, pointee), which is threaded like a local and reported at every exit.
+func (t *gfTr) bindTarget(at ast.Node, lhs ast.Expr, v string, k gfKind) string {
+	if id, ok := lhs.(*ast.Ident); ok {
+		if id.Name == "_" {
+			return ""
+		}
+		if _, isLocal := t.locals[id.Name]; !isLocal {
+			if _, isField := t.locals["field:"+id.Name]; !isField {
+				t.fail(at, "assignment to non-local %s", id.Name)
+			}
+		} else {
+			if k == kErr {
+				t.errOrigin[id.Name] = v
+			}
+			n := t.bindLocal(id.Name, k)
+			return "let " + n + " := " + v + "\n"
+		}
+	}
+	key := "field:" + t.text(lhs)
+	if _, ok := t.locals[key]; !ok {
+		t.fail(at, "assignment to a non-local not found by the pre-scan: %s", t.text(lhs))
+	}
+	if k == kProp {
+		v = t.toBool(v, k)
+	}
+	n := t.fresh(t.text(lhs))
+	t.leaves["local:"+key] = n
+	return "let " + n + " := " + v + "\n"
+}
+
+func (t *gfTr) assign(x *ast.AssignStmt, rest []ast.Stmt) string {
+	// a, b := f()  /  v, ok := m[k]  /  y, ok := z.(T): every left side gets a leaf of its own
+	if len(x.Lhs) > 1 && len(x.Rhs) == 1 {
+		out := ""
+		tup, _ := t.typeOf(x.Rhs[0]).(*types.Tuple)
+		for i, l := range x.Lhs {
+			id, ok := l.(*ast.Ident)
+			if !ok {
+				t.fail(x, "multi-assignment to a non-local: %s", t.text(x))
+			}
+			if id.Name == "_" {
+				continue
+			}
+			var ty types.Type
+			if tup != nil && i < tup.Len() {
+				ty = tup.At(i).Type()
+			} else if o := t.p.TypesInfo.ObjectOf(id); o != nil {
+				ty = o.Type()
+			}
+			k := t.kindOfType(ty)
+			src := fmt.Sprintf("%s#%d", t.text(x.Rhs[0]), i)
+			name, ok2 := t.leaves[src]
+			if !ok2 {
+				base := src
+				if k == kErr {
+					base += "_err"
+				}
+				name = t.fresh(base)
+				t.leaves[src] = name
+				lt := "Int"
+				if k == kBool || k == kErr {
+					lt = "Bool"
+				}
+				t.params = append(t.params, gfParam{name, lt})
+			}
+			if x.Tok == token.DEFINE {
+				delete(t.locals, id.Name)
+				t.locals[id.Name] = k
+			}
+			out += t.bindTarget(x, id, name, k)
+		}
+		return out + t.stmts(rest)
+	}
+	if len(x.Lhs) != len(x.Rhs) {
+		t.fail(x, "unsupported assignment: %s", t.text(x))
+	}
+	if len(x.Lhs) > 1 {
+		// parallel assignment: all right sides first
+		var vs []string
+		var ks []gfKind
+		for _, r := range x.Rhs {
+			v, k := t.valueFor(r)
+			vs, ks = append(vs, v), append(ks, k)
+		}
+		out := ""
+		for i, l := range x.Lhs {
+			if id, ok := l.(*ast.Ident); ok && x.Tok == token.DEFINE && id.Name != "_" {
+				t.locals[id.Name] = ks[i]
+			}
+			out += t.bindTarget(x, l, vs[i], ks[i])
+		}
+		return out + t.stmts(rest)
+	}
+	lhs := x.Lhs[0]
+	var v string
+	var k gfKind
+	switch x.Tok {
+	case token.DEFINE, token.ASSIGN:
+		v, k = t.valueFor(x.Rhs[0])
+	default:
+		op := map[token.Token]token.Token{token.ADD_ASSIGN: token.ADD, token.SUB_ASSIGN: token.SUB, token.MUL_ASSIGN: token.MUL, token.QUO_ASSIGN: token.QUO, token.REM_ASSIGN: token.REM, token.SHL_ASSIGN: token.SHL, token.SHR_ASSIGN: token.SHR, token.AND_ASSIGN: token.AND, token.OR_ASSIGN: token.OR, token.XOR_ASSIGN: token.XOR, token.AND_NOT_ASSIGN: token.AND_NOT}[x.Tok]
+		if op == 0 {
+			t.fail(x, "unsupported assignment operator")
+		}
+		be := &ast.BinaryExpr{X: lhs, Op: op, Y: x.Rhs[0]}
+		// types for the synthetic node: result has the type of the target
+		t.p.TypesInfo.Types[be] = types.TypeAndValue{Type: t.typeOf(lhs)}
+		v, k = t.binary(be)
+	}
+	if id, ok := lhs.(*ast.Ident); ok {
+		if id.Name == "_" {
+			return t.stmts(rest)
+		}
+		if x.Tok == token.DEFINE {
+			if _, exists := t.locals[id.Name]; exists {
+				t.fail(x, "re-declaration of %s in an inner scope is not supported", id.Name)
+			}
+			t.locals[id.Name] = k
+		}
+	}
+	return t.bindTarget(x, lhs, v, k) + t.stmts(rest)
+}
+
 func gf_firstLine(s string) string {
 	if i := strings.IndexByte(s, '\n'); i >= 0 {
 		return s[:i] + " …"
@@ -783,13 +1003,18 @@ func (t *gfTr) stmtsInit(s ast.Stmt) string {
 type gfSnap struct {
 	locals map[string]gfKind
 	names  map[string]string
+	epoch  map[string]int
+	eff    string
 }
 
 func (t *gfTr) snapshot() gfSnap {
-	s := gfSnap{map[string]gfKind{}, map[string]string{}}
+	s := gfSnap{map[string]gfKind{}, map[string]string{}, map[string]int{}, t.leaves["local:effects:"]}
 	for k, v := range t.locals {
 		s.locals[k] = v
 		s.names[k] = t.leaves["local:"+k]
+	}
+	for k, v := range t.epoch {
+		s.epoch[k] = v
 	}
 	return s
 }
@@ -799,6 +1024,13 @@ func (t *gfTr) restore(s gfSnap) {
 	for k, v := range s.locals {
 		t.locals[k] = v
 		t.leaves["local:"+k] = s.names[k]
+	}
+	t.epoch = map[string]int{}
+	for k, v := range s.epoch {
+		t.epoch[k] = v
+	}
+	if s.eff != "" {
+		t.leaves["local:effects:"] = s.eff
 	}
 }
 
@@ -847,7 +1079,7 @@ func gf_containsPanic(n ast.Node) bool {
 }
 
 func gfTranslate(p *packages.Package, fd *ast.FuncDecl, spec gfSpec) (def string, err error) {
-	t := &gfTr{p: p, spec: spec, leaves: map[string]string{}, locals: map[string]gfKind{}, used: map[string]bool{"wrapS": true}, errOrigin: map[string]string{}}
+	t := &gfTr{p: p, spec: spec, leaves: map[string]string{}, locals: map[string]gfKind{}, used: map[string]bool{"wrapS": true, "band": true, "bor": true, "bxor": true, "bandnot": true}, fieldTy: map[string]string{}, errOrigin: map[string]string{}, epoch: map[string]int{}}
 	defer func() {
 		if r := recover(); r != nil {
 			if ge, ok := r.(gfErr); ok {
@@ -875,35 +1107,142 @@ func gfTranslate(p *packages.Package, fd *ast.FuncDecl, spec gfSpec) (def string
 			t.leaves["local:"+id.Name] = n
 		}
 	}
-	resTy := "Int"
+	// declared results
+	var resTys []string
 	switch {
 	case spec.Sink != "":
-		t.resKind, t.option, resTy = "sink", true, "Option (List Int)"
+		t.resKind, t.option = "sink", true
 	case fd.Type.Results == nil || len(fd.Type.Results.List) == 0:
-		t.resKind, resTy = "unit", "Unit"
-	case len(fd.Type.Results.List) == 1 && len(fd.Type.Results.List[0].Names) <= 1:
-		rt := p.TypesInfo.TypeOf(fd.Type.Results.List[0].Type)
-		switch t.kindOfType(rt) {
-		case kInt:
-			t.resKind = "int"
-		case kBool:
-			t.resKind, resTy = "bool", "Bool"
-		case kErr:
-			t.resKind, resTy = "err", "String"
-		default:
-			return "", fmt.Errorf("unsupported result type %s", rt)
-		}
+		t.resKind = "unit"
 	default:
-		return "", fmt.Errorf("multiple results")
+		for _, f := range fd.Type.Results.List {
+			if len(f.Names) > 1 {
+				return "", fmt.Errorf("grouped named results")
+			}
+			rt := p.TypesInfo.TypeOf(f.Type)
+			switch t.kindOfType(rt) {
+			case kInt:
+				t.resKinds, resTys = append(t.resKinds, "int"), append(resTys, "Int")
+			case kBool:
+				t.resKinds, resTys = append(t.resKinds, "bool"), append(resTys, "Bool")
+			case kErr:
+				t.resKinds, resTys = append(t.resKinds, "err"), append(resTys, "String")
+			default:
+				if len(fd.Type.Results.List) == 1 {
+					return "", fmt.Errorf("unsupported result type %s", rt)
+				}
+				// in a tuple a value of another type is an opaque code (0 for nil)
+				t.resKinds, resTys = append(t.resKinds, "opaque"), append(resTys, "Int")
+			}
+		}
+		t.resKind = "vals"
+	}
+	// pre-scan: written non-local locations and effect-only calls
+	if spec.Sink == "" {
+		localNames := map[string]bool{}
+		ast.Inspect(fd.Body, func(n ast.Node) bool {
+			switch x := n.(type) {
+			case *ast.AssignStmt:
+				if x.Tok == token.DEFINE {
+					for _, l := range x.Lhs {
+						if id, ok := l.(*ast.Ident); ok {
+							localNames[id.Name] = true
+						}
+					}
+				}
+			case *ast.ValueSpec:
+				for _, id := range x.Names {
+					localNames[id.Name] = true
+				}
+			}
+			return true
+		})
+		for _, f := range fd.Type.Params.List {
+			for _, id := range f.Names {
+				localNames[id.Name] = true
+			}
+		}
+		addField := func(e ast.Expr) {
+			if id, ok := e.(*ast.Ident); ok {
+				if localNames[id.Name] || id.Name == "_" {
+					return
+				}
+			}
+			key := t.text(e)
+			if _, dup := t.locals["field:"+key]; dup {
+				return
+			}
+			k := t.kindOfType(t.typeOf(e))
+			lt := "Int"
+			if k == kBool || k == kErr {
+				lt = "Bool"
+			}
+			n := t.fresh(key)
+			t.params = append(t.params, gfParam{n, lt})
+			t.locals["field:"+key] = k
+			t.leaves["local:field:"+key] = n
+			t.fieldKeys = append(t.fieldKeys, key)
+			resTys = append(resTys, lt)
+		}
+		ast.Inspect(fd.Body, func(n ast.Node) bool {
+			switch x := n.(type) {
+			case *ast.FuncLit:
+				return false
+			case *ast.AssignStmt:
+				if x.Tok != token.DEFINE {
+					for _, l := range x.Lhs {
+						addField(l)
+					}
+				}
+			case *ast.IncDecStmt:
+				addField(x.X)
+			case *ast.ExprStmt:
+				if c, ok := x.X.(*ast.CallExpr); ok {
+					ft := t.text(c.Fun)
+					if ft != "panic" && !gfIgnoreCall.MatchString(ft+"(") {
+						t.hasEff = true
+					}
+				}
+			case *ast.GoStmt:
+				t.hasEff = true
+			case *ast.DeferStmt:
+				if !gfIgnoreCall.MatchString(t.text(x.Call.Fun) + "(") {
+					t.hasEff = true
+				}
+			}
+			return true
+		})
+	}
+	pre := ""
+	if t.hasEff {
+		n := t.fresh("effects")
+		t.leaves["local:effects:"] = n
+		pre = "let " + n + " : List String := []\n"
+		resTys = append(resTys, "List String")
+	}
+	var resTy string
+	switch {
+	case t.resKind == "sink":
+		resTy = "Option (List Int)"
+	case len(resTys) == 0:
+		resTy = "Unit"
+	case len(resTys) == 1:
+		resTy = resTys[0]
+	default:
+		resTy = strings.Join(resTys, " × ")
 	}
 	if spec.Sink == "" && gf_containsPanic(fd.Body) {
 		t.option = true
-		resTy = "Option " + resTy
-		if strings.Contains(resTy, " ") && !strings.HasPrefix(resTy, "Option (") {
-			resTy = "Option " + strings.TrimPrefix(resTy, "Option ")
+		if strings.Contains(resTy, " ") {
+			resTy = "Option (" + resTy + ")"
+		} else {
+			resTy = "Option " + resTy
 		}
 	}
-	body := t.stmts(fd.Body.List)
+	if t.resKind == "vals" && len(t.resKinds) == 0 {
+		t.resKind = "unit"
+	}
+	body := pre + t.stmts(fd.Body.List)
 	var ps []string
 	for _, q := range t.params {
 		ps = append(ps, "("+q.name+" : "+q.typ+")")
@@ -950,6 +1289,7 @@ func genGoFuncs(repo string) (string, error) {
 	out.WriteString("-- Translated from Go source by harness/cmd/extract/gofuncs.go (see its header for the supported subset\n-- and the integer semantics). One definition per listed function; a function that can no longer be\n-- translated is omitted (and every theorem about it stops checking).\n")
 	out.WriteString("set_option linter.unusedVariables false\nnamespace NeoModel.Generated.GoFuncs\n\n")
 	out.WriteString("/-- two's-complement wrap of an integer to w bits (conversions to int8/int16/int32) -/\ndef wrapS (w : Nat) (x : Int) : Int := (x + 2 ^ (w - 1)) % 2 ^ w - 2 ^ (w - 1)\n\n")
+	out.WriteString("/-- bit operations of Go's `&` `|` `^` `&^` on non-negative operands (flags, masks) -/\ndef band (a b : Int) : Int := ((a.toNat &&& b.toNat : Nat) : Int)\ndef bor (a b : Int) : Int := ((a.toNat ||| b.toNat : Nat) : Int)\ndef bxor (a b : Int) : Int := ((a.toNat ^^^ b.toNat : Nat) : Int)\ndef bandnot (a b : Int) : Int := a - band a b\n\n")
 	var failed []string
 	var okNames []string
 	for _, pk := range order {
